@@ -226,6 +226,13 @@ class Interp(object):
         r = h(node, st, self)
         if r is not NotImplemented:
           return r
+      # frozenset([...]) / set(...) / tuple(...) / list(...) of a literal: the
+      # same membership table as the literal itself
+      if isinstance(node.func, ast.Name) and node.func.id in ('frozenset', 'set', 'tuple', 'list') \
+          and len(node.args) == 1 and not node.keywords:
+        inner = self.value(node.args[0], st)
+        if isinstance(inner, tuple):
+          return inner
       return Sym(norm(node), node)
     if isinstance(node, ast.Attribute):
       h = self.hooks.get('attr')
